@@ -1026,6 +1026,165 @@ theorem mayLoss_refines_recved_start (m : BufMap) (a b : Nat) (hwf : WF m) (hab 
   · rw [hra] at hc; subst hc
     exact mayLoss_miss_recved m a b hwf hb hnp P' S o' hr hP ho' hS
 
+/-! ### `splice`, `sameBefore` (same lemmas as in `BufMapAck.lean`, prefixed to avoid clashes) -/
+
+private theorem loss_drain_eq (A B C : List Run) (ds de : Nat) (hds : ds = A.length)
+    (h1 : B ≠ [] → de = A.length + B.length) (h2 : B = [] → de ≤ A.length) :
+    (if ds < de then drain (A ++ B ++ C) ds de else pure (A ++ B ++ C)) = .ok (A ++ C) := by
+  subst hds
+  cases B with
+  | nil =>
+    have := h2 rfl
+    have h : ¬ A.length < de := by omega
+    simp [h, pure, Except.pure]
+  | cons x B =>
+    have := h1 (by simp)
+    have h : A.length < de := by simp at this; omega
+    subst this
+    simp [drain, pure, Except.pure]
+
+private def loss_stepOpt (l : List Run) (ds de : Nat) : Option Run → Res (List Run × Nat)
+  | some r => do
+    let l' ← if ds < de then setAt l ds r else insertAt l ds r
+    pure (l', ds + 1)
+  | none => pure (l, ds)
+
+private theorem loss_splice_unfold (l : List Run) (ds de : Nat) (s e : Option Run) :
+    splice l ds de s e =
+      (loss_stepOpt l ds de s >>= fun p => loss_stepOpt p.1 p.2 de e >>= fun q =>
+        if q.2 < de then drain q.1 q.2 de else pure q.1) := by
+  cases s <;> cases e <;> simp only [splice, loss_stepOpt, bind, Except.bind, pure, Except.pure] <;>
+    (try split) <;> (try split) <;> (try split) <;> (try split) <;> simp_all
+
+private theorem loss_stepOpt_eq (A B C : List Run) (s : Option Run) (ds de : Nat) (hds : ds = A.length)
+    (h1 : B ≠ [] → de = A.length + B.length) (h2 : B = [] → de ≤ A.length) :
+    loss_stepOpt (A ++ B ++ C) ds de s
+      = .ok ((A ++ s.toList) ++ B.drop s.toList.length ++ C, (A ++ s.toList).length) := by
+  subst hds
+  cases s with
+  | none => simp [loss_stepOpt, pure, Except.pure]
+  | some r =>
+    cases B with
+    | nil =>
+      have := h2 rfl
+      have h : ¬ A.length < de := by omega
+      simp [loss_stepOpt, h, insertAt, bind, Except.bind, pure, Except.pure]
+    | cons x B =>
+      have := h1 (by simp)
+      have h : A.length < de := by simp at this; omega
+      simp [loss_stepOpt, h, setAt, bind, Except.bind, pure, Except.pure]
+
+private theorem loss_drop_cond (A B : List Run) (de : Nat) (X : List Run)
+    (h1 : B ≠ [] → de = A.length + B.length) (h2 : B = [] → de ≤ A.length) :
+    (B.drop X.length ≠ [] → de = (A ++ X).length + (B.drop X.length).length) ∧
+    (B.drop X.length = [] → de ≤ (A ++ X).length) := by
+  constructor
+  · intro h
+    have hB : B ≠ [] := by intro hB; subst hB; simp at h
+    have := h1 hB
+    have hl : X.length < B.length := by
+      false_or_by_contra
+      apply h
+      simp; omega
+    simp; omega
+  · intro h
+    simp at h
+    by_cases hB : B = []
+    · have := h2 hB; simp; omega
+    · have := h1 hB; simp; omega
+
+/-- `splice` replaces the middle piece by the (optional) two inserted runs -/
+theorem loss_splice_decomp (A B C : List Run) (ds de : Nat) (s e : Option Run) (hds : ds = A.length)
+    (hde : de = A.length + B.length) :
+    splice (A ++ B ++ C) ds de s e = .ok (A ++ s.toList ++ e.toList ++ C) := by
+  have h1 : B ≠ [] → de = A.length + B.length := fun _ => hde
+  have h2 : B = [] → de ≤ A.length := fun h => by subst h; simp at hde; omega
+  have c1 := loss_drop_cond A B de s.toList h1 h2
+  have c2 := loss_drop_cond (A ++ s.toList) (B.drop s.toList.length) de e.toList c1.1 c1.2
+  rw [loss_splice_unfold, loss_stepOpt_eq A B C s ds de hds h1 h2]
+  simp only [bind, Except.bind]
+  rw [loss_stepOpt_eq (A ++ s.toList) _ C e _ de rfl c1.1 c1.2]
+  simp only []
+  exact loss_drain_eq _ _ C _ de rfl c2.1 c2.2
+
+theorem loss_sameBefore_split (col : Colour) (l : List Run) (i : Nat) (hi : i ≤ l.length) :
+    ∃ P1 P2 P3, l = P1 ++ P2 ++ P3 ∧ sameBefore l col i = P1.length ∧ P1.length + P2.length = i ∧
+      (∀ r ∈ P2, r.2 = col) := by
+  induction i with
+  | zero => exact ⟨[], [], l, rfl, rfl, rfl, by simp⟩
+  | succ i ih =>
+    obtain ⟨P1, P2, P3, h1, h2, h3, h4⟩ := ih (by omega)
+    have hP3 : P3 ≠ [] := by
+      intro h; subst h; subst h1; simp at hi; omega
+    obtain ⟨⟨o, c⟩, P3', rfl⟩ := List.exists_cons_of_ne_nil hP3
+    have hget : l[i]? = some (o, c) := by
+      subst h1; rw [List.getElem?_append_right (by simp; omega)]; simp [← h3]
+    by_cases h : c = col
+    · refine ⟨P1, P2 ++ [(o, c)], P3', by simp [h1], ?_, by simp; omega, ?_⟩
+      · simp only [sameBefore, hget, h, if_true]; exact h2
+      · intro r hr
+        simp at hr
+        rcases hr with hr | hr
+        · exact h4 r hr
+        · subst hr; exact h
+    · refine ⟨P1 ++ P2 ++ [(o, c)], [], P3', by simp [h1], ?_, by simp; omega, by simp⟩
+      simp only [sameBefore, hget, h, if_false]; simp; omega
+
+
+/-! ### the scanning loop of `may_loss` -/
+
+theorem lossScan_spec (b size : Nat) (hb : b ≤ size) (all rest : List Run) :
+    ∀ (de : Nat) (pre : Colour), (∀ r ∈ rest, r.1 < b → r.2 ≠ Colour.pending) →
+    ∃ L R, rest = L ++ R ∧ (∀ r ∈ L, r.1 < b ∧ (r.2 = Colour.flighting ∨ r.2 = Colour.lost)) ∧
+      ((R = [] ∧ lossScan b size all rest de pre =
+          .ok (de + L.length, lastCol L pre, decide (b < size) && lastCol L pre == Colour.flighting, none)) ∨
+       (∃ o R', R = (o, Colour.recved) :: R' ∧ o < b ∧ lossScan b size all rest de pre =
+          .ok (de + L.length, lastCol L pre, false, some (de + L.length + 1))) ∨
+       (∃ c R', R = (b, c) :: R' ∧ lossScan b size all rest de pre =
+          .ok (sameAfterP1 all Colour.lost (de + L.length), lastCol L pre, false, none)) ∨
+       (∃ o c R', R = (o, c) :: R' ∧ b < o ∧ lossScan b size all rest de pre =
+          .ok (de + L.length, lastCol L pre, lastCol L pre == Colour.flighting, none))) := by
+  induction rest with
+  | nil =>
+    intro de pre _
+    refine ⟨[], [], rfl, by simp, Or.inl ⟨rfl, ?_⟩⟩
+    have : ¬ b > size := by omega
+    simp [lossScan, this, lastCol_nil]
+    rfl
+  | cons r rest ih =>
+    intro de pre hnp
+    obtain ⟨o, c⟩ := r
+    by_cases hob : o < b
+    · have hcp : c ≠ Colour.pending := hnp (o, c) (by simp) hob
+      by_cases hcr : c = Colour.recved
+      · subst hcr
+        refine ⟨[], (o, Colour.recved) :: rest, rfl, by simp, Or.inr (Or.inl ⟨o, rest, rfl, hob, ?_⟩)⟩
+        simp [lossScan, hob, lastCol_nil]
+        rfl
+      · obtain ⟨L, R, hLR, hL, hres⟩ := ih (de + 1) c (fun r hr => hnp r (by simp [hr]))
+        have hunf : lossScan b size all ((o, c) :: rest) de pre = lossScan b size all rest (de + 1) c := by
+          simp [lossScan, hob, hcp, hcr]
+        have hc2 : c = Colour.flighting ∨ c = Colour.lost := by
+          cases c <;> simp_all
+        refine ⟨(o, c) :: L, R, by simp [hLR], ?_, ?_⟩
+        · intro r hr
+          simp only [List.mem_cons] at hr
+          rcases hr with rfl | hr
+          · exact ⟨hob, hc2⟩
+          · exact hL r hr
+        · have hlen : de + 1 + L.length = de + ((o, c) :: L).length := by simp; omega
+          have hlc : lastCol ((o, c) :: L) pre = lastCol L c := lastCol_cons _ _ _
+          rw [hunf, ← hlen, hlc]
+          exact hres
+    · by_cases hob2 : o = b
+      · subst hob2
+        refine ⟨[], (o, c) :: rest, rfl, by simp, Or.inr (Or.inr (Or.inl ⟨c, rest, rfl, ?_⟩))⟩
+        simp [lossScan, lastCol_nil]
+        rfl
+      · refine ⟨[], (o, c) :: rest, rfl, by simp, Or.inr (Or.inr (Or.inr ⟨o, c, rest, rfl, by omega, ?_⟩))⟩
+        simp [lossScan, hob, hob2, lastCol_nil]
+        rfl
+
 -- OPEN: `mayLoss_refines` (the top-level theorem) is not proved.  What is missing:
 --   (1) the three branches of `mayLoss` that only call `mayLostFrom` (`Ok(idx)` on a `Recved` run, `Err(0)`,
 --       `Err(idx)` after a `Recved` run) follow from `mayLostFrom_abs` + `lowerBound_spec` (hypotheses `hP1 hP2 hR`
